@@ -1,8 +1,10 @@
 import Lean.Data.Json
 import PynguinModel.Model.StackMachine
+import PynguinModel.Model.Callbacks
 /-! Line-protocol driver for C01: one JSON case per line in, one JSON result per line out.
 `{"run": {"ops": [...], "stack": [...], "unbound": [[kind,name],...], "userRaises": bool}}` runs the
-stack machine; `{"check": {"item": ...}}` evaluates the checkers on an item. -/
+stack machine; `{"check": {"item": ...}}` evaluates the checkers on an item; `{"pred": {...}}` runs the predicate-callback
+model and `{"prov": {...}}` the seeding-callback model of Model/Callbacks.lean. -/
 open Lean PynguinModel.StackMachine
 
 deriving instance FromJson for Lit
@@ -54,10 +56,97 @@ def runCase (c : RunCase) : Json :=
 def checkCase (c : CheckCase) : Json :=
   Json.mkObj [("checked", toJson c.item.checked), ("stackNeutral", toJson c.item.stackNeutral)]
 
+
+/-! ### callbacks (Model/Callbacks.lean) -/
+section Callbacks
+open PynguinModel.Callbacks
+
+deriving instance FromJson for F
+deriving instance FromJson for Base
+deriving instance FromJson for Operand
+
+def excOfString : String → Option Exc
+  | "typeError" => some .typeError
+  | "valueError" => some .valueError
+  | "overflowError" => some .overflowError
+  | "assertionError" => some .assertionError
+  | "other" => some (.other 0)
+  | "base" => some (.base 0)
+  | _ => none
+
+def excJ : Exc → Json
+  | .typeError => "typeError"
+  | .valueError => "valueError"
+  | .overflowError => "overflowError"
+  | .assertionError => "assertionError"
+  | .other _ => "other"
+  | .base _ => "base"
+
+def fJ : F → Json
+  | .negInf => "negInf" | .neg => "neg" | .zero => "zero" | .pos => "pos" | .posInf => "posInf" | .nan => "nan"
+
+/-- `{"ok": x}` or `{"err": "<exception class>"}` -/
+def outOf {α : Type} [FromJson α] (j : Json) : Except String (Out α) :=
+  match j.getObjVal? "err" with
+  | .ok e =>
+    match e.getStr? with
+    | .ok s => match excOfString s with
+      | some x => .ok (.error x)
+      | none => .error s!"unknown exception class {s}"
+    | .error m => .error m
+  | .error _ =>
+    match j.getObjVal? "ok" with
+    | .ok v => (fromJson? v : Except String α).map fun a => (.ok a : Out α)
+    | .error m => .error m
+
+def distJ : Out (F × F) → Json
+  | .error e => Json.mkObj [("err", excJ e)]
+  | .ok (dt, df) => Json.mkObj [("ok", Json.arr #[fJ dt, fJ df])]
+
+def predCase (j : Json) : Except String Json := do
+  let kind ← (← j.getObjVal? "kind").getStr?
+  let primary ← outOf (α := Bool) (← j.getObjVal? "primary")
+  if kind == "compare" then
+    let td ← outOf (α := F) (← j.getObjVal? "td")
+    let fd ← outOf (α := F) (← j.getObjVal? "fd")
+    return distJ (executedComparePredicate primary td fd)
+  else if kind == "bool" then
+    let fd ← outOf (α := F) (← j.getObjVal? "fd")
+    return distJ (executedBoolPredicate primary fd)
+  else throw s!"unknown predicate kind {kind}"
+
+def baseJ : Base → Json
+  | .str => "str" | .bytes => "bytes" | .int => "int" | .float => "float" | .complex => "complex"
+  | .bool => "bool" | .tuple => "tuple" | .none => "none" | .other => "other"
+
+def provCase (j : Json) : Except String Json := do
+  let entryName ← (← j.getObjVal? "entry").getStr?
+  let maxLen ← (← j.getObjVal? "maxLen").getNat?
+  let v ← (fromJson? (← j.getObjVal? "v") : Except String Operand)
+  let p ← (fromJson? (← j.getObjVal? "p") : Except String Operand)
+  let entry ← match entryName with
+    | "addValue" => pure Entry.addValue
+    | "strings" => do pure (Entry.strings (← (← j.getObjVal? "name").getStr?))
+    | "startswith" => pure Entry.startswith
+    | "endswith" => pure Entry.endswith
+    | s => throw s!"unknown entry {s}"
+  let cs := provider maxLen entry v p
+  let user := (userCalls cs).filterMap fun
+    | .user i op => some (Json.arr #[toJson i, Json.str op])
+    | _ => none
+  let pool := (poolAdds cs).map fun (b, n) => Json.arr #[baseJ b, toJson n]
+  return Json.mkObj [("user", Json.arr user.toArray), ("pool", Json.arr pool.toArray)]
+
+end Callbacks
+
 def handle (line : String) : Json :=
   match Json.parse line with
   | .error e => Json.mkObj [("bad-op", Json.str e)]
   | .ok j =>
+    match j.getObjVal? "pred", j.getObjVal? "prov" with
+    | .ok r, _ => (match predCase r with | .ok o => o | .error e => Json.mkObj [("bad-op", Json.str e)])
+    | _, .ok r => (match provCase r with | .ok o => o | .error e => Json.mkObj [("bad-op", Json.str e)])
+    | _, _ =>
     match j.getObjVal? "run", j.getObjVal? "check" with
     | .ok r, _ =>
       match (fromJson? r : Except String RunCase) with
